@@ -83,7 +83,12 @@ func gridCases(widths []int, full, allCtx bool, yield func(Case) bool) {
 			for i := 0; i < 2; i++ {
 				cs.Ctxs = append(cs.Ctxs, names[(idx+i*7)%len(names)])
 			}
+			nn := cs.numNames()
+			cs.Ctxs = append(cs.Ctxs, nn[(idx/2)%len(nn)])
 		}
+		rk, rb := cs.resultType()
+		mv := meetValues(rk, rb)
+		cs.C = Lit{V: mv[(idx/5)%len(mv)].String()}
 		fixedRuntime(&cs, idx)
 		yield(cs)
 	}
